@@ -268,10 +268,10 @@ func errClass(err error) int {
 	switch {
 	case err == nil:
 		return 0
-	case err == io.EOF:
-		return 1
-	case err == io.ErrUnexpectedEOF:
+	case errors.Is(err, io.ErrUnexpectedEOF):
 		return 2
+	case errors.Is(err, io.EOF):
+		return 1
 	}
 	return 3
 }
@@ -422,7 +422,10 @@ func toolsSingleCases(c *gal.Ctx) []func() {
 			s, err := tools.ReadACMStatus(img)
 			return []uint64{b2u(s.Valid), uint64(s.MinorErrorCode), b2u(s.ACMStarted), uint64(s.MajorErrorCode), uint64(s.ClassCode), uint64(s.ModuleType)}, err
 		}, acmStatusLeafDoc},
-		{"ReadACMPolicyStatusRaw", 0x378, 8, func(img []byte) ([]uint64, error) { v, err := tools.ReadACMPolicyStatusRaw(img); return []uint64{v}, err },
+		{"ReadACMPolicyStatusRaw", 0x378, 8, func(img []byte) ([]uint64, error) {
+			v, err := tools.ReadACMPolicyStatusRaw(img)
+			return []uint64{v}, err
+		},
 			[]toolsLeaf{{"ACM_POLICY_STATUS", 0x378, 8, 0, 64, false}}},
 		{"ReadBootStatusRaw", 0xa0, 8, func(img []byte) ([]uint64, error) { v, err := tools.ReadBootStatusRaw(img); return []uint64{v}, err },
 			[]toolsLeaf{{"TXT.BOOTSTATUS", 0xa0, 8, 0, 64, false}}},
